@@ -262,6 +262,10 @@ class Check:
             self.violations.append((sig, detail, replay))
 
     def tie_broken(self, kind, name, detail):
+        for b in self.broken:
+            if b['kind'] == kind and b['name'] == name:
+                b['count'] = b.get('count', 1) + 1
+                return
         self.broken.append(dict(kind=kind, name=name, detail=detail))
 
     def finish(self):
